@@ -128,6 +128,8 @@ pub enum HOp {
     Reset,
     SetRange(usize, usize),
     SetRate(f64),
+    /// allow_ext_opcodes / allow_buffer_opcodes through the pub fields
+    SetFlags(bool, bool),
 }
 
 impl HOp {
@@ -137,6 +139,7 @@ impl HOp {
             HOp::Reset => json!({"op": "reset"}),
             HOp::SetRange(a, b) => json!({"op": "set_range", "min": a, "max": b}),
             HOp::SetRate(r) => json!({"op": "set_rate", "rate_bits": format!("{:016x}", r.to_bits())}),
+            HOp::SetFlags(e, b) => json!({"op": "set_flags", "allow_ext": e, "allow_buffer": b}),
         }
     }
     pub fn from_json(v: &Value) -> Result<Self, String> {
@@ -150,6 +153,7 @@ impl HOp {
             Some("set_rate") => Ok(HOp::SetRate(f64::from_bits(
                 u64::from_str_radix(v["rate_bits"].as_str().ok_or("rate_bits")?, 16).map_err(|e| e.to_string())?,
             ))),
+            Some("set_flags") => Ok(HOp::SetFlags(v["allow_ext"].as_bool().unwrap_or(false), v["allow_buffer"].as_bool().unwrap_or(false))),
             _ => Err("hop".into()),
         }
     }
